@@ -48,7 +48,7 @@ class Trees(Part):
     rule = ("trees of text|table|panel|padding|align|constrain|styled|columns|tree|rule|bar|progress_bar|group|cast|bare nodes, every listed layout option, "
             "contents over narrow/wide/zero-width characters with newlines; W = structural minimum + {0,1,2,3,5,8,13} (about half of the cases), round "
             "numbers, or uniform up to 200; non-trivial = nesting depth >= 2 and (W - minimum <= 3, or a wide/zero-width character present)")
-    budget = {"quick": (16, 200), "thorough": (16, 8000)}
+    budget = {"quick": (16, 400), "thorough": (16, 8000)}
     chunk = 200
 
     def strategy(self, tier):
